@@ -405,6 +405,31 @@ def run(tier, seed):
                         "ops": ["transcendental"], "relerr": None,
                         "what": f"{src}: {bad}: numpy (central differences) gives {short(got['numpy'])}, torch (autograd) gives {short(got['torch'])}"}
                 clusters.setdefault(("cross", body), []).append(case)
+    # ... and the NUMERIC form P∇f over the same bodies: central differences under both backends, which must agree with each other to
+    # numeric accuracy (a backend that evaluates part of the function in single precision does not)
+    n_crossnum = 0
+    for body in CROSS_BODIES:
+        for P in CROSS_POINTS:
+            src = f'.bkf(["exp" "sin" "cos" "log" "sqrt"]);f::{{{body}}};{P}∇f'
+            got = {}
+            for be in ("numpy", "torch"):
+                k = KlongInterpreter(backend=be) if be == "numpy" else KlongInterpreter(backend="torch", device="cpu")
+                try:
+                    got[be] = tonum(k(src))
+                except BaseException as exn:   # noqa
+                    got[be] = f"raised {type(exn).__name__}: {str(exn)[:80]}"
+                n_eval += 1
+            n_crossnum += 1
+            if isinstance(got["numpy"], str) or isinstance(got["torch"], str):
+                continue        # (judged by the f:>p comparison above)
+            if not close(got["torch"], got["numpy"], 1e-4):
+                import numpy as _np
+                err = float(_np.max(_np.abs(_np.asarray(got["torch"], dtype=float) - _np.asarray(got["numpy"], dtype=float))))
+                case = {"form": "p∇f (cross-backend)", "backend": "torch", "kind": "cross-numeric", "top": "src", "src": src, "raised": False,
+                        "ops": ["transcendental"], "relerr": None, "body": body, "err_over_fscale": None,
+                        "what": f"{src}: the numeric gradients disagree: numpy gives {short(got['numpy'])}, torch gives {short(got['torch'])} (largest difference {err:.3g})"}
+                clusters.setdefault(("cross-numeric", body), []).append(case)
+    ev.cov["cross_backend_numeric_cases"] = n_crossnum
     ev.cov["cross_backend_only_cases"] = n_cross
     ev.cov["cross_backend_cases_computed_by_both"] = n_both
     if n_both < 0.8 * n_cross:
@@ -500,6 +525,10 @@ def matcher(f, case):
     if "ops_any" in m and not (set(m["ops_any"]) & set(case["ops"])):
         return False
     if "kinds" in m and case["kind"] not in m["kinds"]:
+        return False
+    if "not_kinds" in m and case["kind"] in m["not_kinds"]:
+        return False
+    if "bodies" in m and case.get("body") not in m["bodies"]:
         return False
     if "max_relerr" in m and (case.get("relerr") is None or case["relerr"] > m["max_relerr"]):
         return False
